@@ -901,3 +901,18 @@ mod tests {
         assert_eq!(&snap2.bytes[..], &data[..MAX_READ_AHEAD + 1]);
     }
 }
+
+/// Verification access (cargo feature `verif_hooks`, off by default).
+///
+/// Add-only re-exports of this module's private helpers for `crate::verif_hooks::snippet`.
+/// Nothing here changes behaviour; with the feature off this module is not compiled.
+#[cfg(feature = "verif_hooks")]
+pub(crate) mod verif_access {
+    pub(crate) fn trim_to_utf8_boundaries_with_line(
+        bytes: Vec<u8>,
+        start_offset: u64,
+        start_line: usize,
+    ) -> (u64, usize, Vec<u8>) {
+        super::trim_to_utf8_boundaries_with_line(bytes, start_offset, start_line)
+    }
+}
